@@ -757,6 +757,9 @@ class FuncVisitor(ast.NodeVisitor):
                 fi.effects.append(Effect("identity", f"{name}()", ln))
             if name in ("str", "repr") and n.args:
                 self._stringify(n.args[0], ln)
+            if name in ("sorted", "min", "max") and n.args and self._is_set_typed(n.args[0]) and any(kw.arg == "key" for kw in n.keywords):
+                # a sort key need not be injective: elements with equal keys keep the set's (hash) order
+                fi.effects.append(Effect("hash_order", f"{name}(..., key=...) over set-typed {ast.unparse(n.args[0])[:50]}: ties keep hash order", ln))
             if name in ("list", "tuple") and n.args and self._is_set_typed(n.args[0]):
                 fi.effects.append(Effect("hash_order", f"{name}() of set-typed {ast.unparse(n.args[0])[:50]}", ln))
             if name == "print":
